@@ -758,3 +758,188 @@ for _p in _properties():
                 "def, class, assignment, import, star import followed into the package -- or is a builtin. A helper renamed or an import "
                 "dropped while a rarely run branch still uses the old name raises NameError only on that branch. Reviewed exceptions: "
                 "generic.GLOBAL_OK.")(_make_g7(_p["id"]))
+
+
+# ---------------------------------------------------------------------------------------------------------------------------
+#  G8  document numbers range over doc_count_all(): the live count doc_count() is never a bound, an offset step or a table size
+#      (`docnum < offset + r.doc_count()` and `colwriter.finish(reader.doc_count())` are right only until the first deletion)
+
+_DOCNUM_WORDS = ("offset", "docnum", "docid", "docbase", "doc_offset", "base")
+_SIZE_TAKERS = ("finish", "fill", "range", "xrange")
+
+
+def _mentions_docnum(e):
+    for x in ast.walk(e):
+        nm = x.id if isinstance(x, ast.Name) else x.attr if isinstance(x, ast.Attribute) else None
+        if nm and any(w in nm.lower() for w in _DOCNUM_WORDS):
+            return True
+    return False
+
+
+def _count_calls(e, name):
+    return [x for x in ast.walk(e) if isinstance(x, ast.Call) and isinstance(x.func, ast.Attribute) and x.func.attr == name
+            and not x.args and not x.keywords]
+
+
+def live_count_as_bound(funcs):
+    """-> (number of doc_count_all() bounds seen, [(func, node, why)] for doc_count() in such a position)"""
+    n = 0
+    out = []
+    for f in funcs:
+        if f.name in ("doc_count", "doc_count_all"):
+            continue
+        if not any(isinstance(x, ast.Attribute) and x.attr in ("doc_count", "doc_count_all") for x in ast.walk(f.node)):
+            continue
+        for x in ast.walk(f.node):
+            sites = []
+            if isinstance(x, ast.BinOp) and isinstance(x.op, (ast.Add, ast.Sub)):
+                sites = [(x.left, x.right), (x.right, x.left)]
+            elif isinstance(x, ast.Compare) and len(x.ops) == 1 and isinstance(x.ops[0], (ast.Lt, ast.LtE, ast.Gt, ast.GtE)):
+                sites = [(x.left, x.comparators[0]), (x.comparators[0], x.left)]
+            elif isinstance(x, ast.Call) and (getattr(x.func, "attr", None) or getattr(x.func, "id", None)) in _SIZE_TAKERS:
+                sites = [(a, None) for a in x.args]
+            for mine, other in sites:
+                try:
+                    ex = norm.inline_defs(mine, f.node)
+                except Exception:
+                    ex = mine
+                if other is not None:
+                    try:
+                        oth = norm.inline_defs(other, f.node)
+                    except Exception:
+                        oth = other
+                    if not (_mentions_docnum(oth) or _mentions_docnum(other)):
+                        continue
+                    # only the operand itself (or a sum it heads), not a call that merely contains the count somewhere
+                    if not (isinstance(ex, ast.Call) or isinstance(ex, ast.BinOp)):
+                        continue
+                if _count_calls(ex, "doc_count_all"):
+                    n += 1
+                live = [c for c in _count_calls(ex, "doc_count") if not isinstance(ex, ast.Call) or c is ex or other is None]
+                if live:
+                    out.append((f, x, "a %s" % ("size argument of %s()" % (getattr(x.func, "attr", None) or x.func.id)
+                                                if other is None else "bound/step for a document number")))
+    return n, out
+
+
+def _make_g8(pid):
+    def g8(ctx):
+        prog = ctx.prog
+        probe = ast.parse("def f(self, reader, docnum, w):\n    for r, offset in reader.leaf_readers():\n"
+                          "        if docnum < offset + r.doc_count():\n            return r\n"
+                          "    w.finish(reader.doc_count())\n    n = reader.doc_count()\n    return min(n, 5)\n").body[0]
+
+        class _F(object):
+            node = probe
+            name = "f"
+        if len(set(x.lineno for _, x, _w in live_count_as_bound([_F])[1])) != 2:
+            raise AnalysisError("G8 detector does not match its own positive example")
+        funcs = anchor_funcs(prog, pid)
+        scope = "%s anchor files" % pid
+        if any(f.module.relpath.endswith(("whoosh/reading.py", "whoosh/searching.py", "whoosh/writing.py")) or "/codec/" in f.module.relpath
+               for f in funcs):
+            # the property is stated over documents: every reader-level module numbers them, whichever file the anchor names
+            funcs = sorted((f for f in prog.functions.values() if not f.module.name.startswith(("whoosh.lang", "whoosh.support"))),
+                           key=lambda f: f.qualname)
+            scope = "whoosh (all modules; %s is stated over documents)" % pid
+        n, bad = live_count_as_bound(funcs)
+        ctx.ob(scope, True, "%d document-number bounds / table sizes taken from doc_count_all()" % n)
+        seen = set()
+        for f, x, why in bad:
+            k = (f.qualname, getattr(x, "lineno", 0))
+            if k in seen:
+                continue
+            seen.add(k)
+            ctx.ob(f, False, "document numbers are bounded by doc_count_all(), not by the live count",
+                   detail="`%s` uses doc_count() as %s: the live count is smaller than the highest document number plus one as soon as "
+                          "a document is deleted" % (norm.canon(x), why), loc=ctx.nodeloc(f, x))
+    return g8
+
+
+for _p in _properties():
+    rule(_p["id"], "G8", "K6", "the live document count is never a bound, step or table size for document numbers",
+         clause="Document numbers of a segment run over range(doc_count_all()); deleted documents keep their number. An expression that "
+                "adds doc_count() to an offset, compares a document number with it, or passes it as the row count of a per-document "
+                "table (finish/fill/range) is right only until the first deletion. Expected count on the tree: zero; the detector "
+                "is checked against a built-in example on every run.")(_make_g8(_p["id"]))
+
+
+# ---------------------------------------------------------------------------------------------------------------------------
+#  G9  bytes read from a file or packed by struct are never concatenated with a str literal
+#      (`f.read(3) + "\x00"` is a TypeError on Python 3; it was bytes + bytes on Python 2)
+
+_BYTES_NAMES = ("emptybytes",)
+
+
+def _is_bytes_expr(e):
+    while isinstance(e, ast.Subscript):
+        e = e.value
+    if isinstance(e, ast.Constant):
+        return isinstance(e.value, bytes)
+    if isinstance(e, ast.Name):
+        return e.id in _BYTES_NAMES
+    if isinstance(e, ast.Call):
+        nm = getattr(e.func, "attr", None) or getattr(e.func, "id", None) or ""
+        if nm in ("read", "getvalue", "tobytes", "tostring", "b", "dumps") or nm.startswith("pack_") or nm == "pack":
+            return True
+        if nm == "encode" and isinstance(e.func, ast.Attribute):
+            return True
+    return False
+
+
+def bytes_plus_text(funcs):
+    n = 0
+    out = []
+    for f in funcs:
+        for x in ast.walk(f.node):
+            pairs = []
+            if isinstance(x, ast.BinOp) and isinstance(x.op, ast.Add):
+                pairs = [(x.left, x.right), (x.right, x.left)]
+            elif isinstance(x, ast.AugAssign) and isinstance(x.op, ast.Add):
+                pairs = [(x.value, None)]
+            for a, other in pairs:
+                if other is None:
+                    # buf += "..." where buf was bound to bytes in this function
+                    if isinstance(x.target, ast.Name) and isinstance(a, ast.Constant) and isinstance(a.value, str):
+                        binds = [s.value for s in ast.walk(f.node) if isinstance(s, ast.Assign) and len(s.targets) == 1
+                                 and isinstance(s.targets[0], ast.Name) and s.targets[0].id == x.target.id]
+                        if binds and all(_is_bytes_expr(b_) for b_ in binds):
+                            out.append((f, x))
+                    continue
+                if _is_bytes_expr(a):
+                    n += 1
+                    if isinstance(other, ast.Constant) and isinstance(other.value, str):
+                        out.append((f, x))
+    return n, out
+
+
+def _make_g9(pid):
+    def g9(ctx):
+        prog = ctx.prog
+        probe = ast.parse("def f(self, f, v):\n    a = f.read(3) + '\\x00'\n    b2 = pack_uint_le(v)[:3] + b'\\x00'\n"
+                          "    buf = emptybytes\n    buf += 'x'\n    return a, b2, buf\n").body[0]
+
+        class _F(object):
+            node = probe
+            name = "f"
+        if len(set(x.lineno for _, x in bytes_plus_text([_F])[1])) != 2:
+            raise AnalysisError("G9 detector does not match its own positive example")
+        funcs = anchor_funcs(prog, pid)
+        n, bad = bytes_plus_text(funcs)
+        ctx.ob("%s anchor files" % pid, True, "%d concatenations with file/struct bytes examined for a str literal operand" % n)
+        seen = set()
+        for f, x in bad:
+            k = (f.qualname, x.lineno)
+            if k in seen:
+                continue
+            seen.add(k)
+            ctx.ob(f, False, "bytes are joined to bytes",
+                   detail="`%s` adds a str literal to bytes: TypeError when the statement runs" % norm.canon(x), loc=ctx.nodeloc(f, x))
+    return g9
+
+
+for _p in _properties():
+    rule(_p["id"], "G9", "K6", "bytes read from a file or packed by struct are never concatenated with a str literal",
+         clause="An operand produced by read()/getvalue()/pack_*()/encode()/b() or the name emptybytes is bytes; `+` (or `+=` on a name "
+                "bound only to such values) with a str literal raises TypeError on Python 3 -- the code path was written for Python 2. "
+                "Expected count on the tree: zero; the detector is checked against a built-in example on every run.")(_make_g9(_p["id"]))
